@@ -421,6 +421,24 @@ def check_terms(ck, prog, prog_xz):
           "xz: coder_set_compression_settings() re-estimates the memory usage for the single-threaded encoder at line %s "
           "without hardware_threads_set(1): coder_init() still creates the threaded encoder, which needs more memory "
           "than the usage that was compared with the limit" % bad, key="TERMS:xz:single-thread-fallback")
+    # the limit that the estimated usage is compared with is the one of the operation being set up: this function
+    # also prepares raw-format DEcompression (the only memory check that mode gets), so the limit is selected by opt_mode
+    lims = []
+    for b_, i, e in g.iter_elems():
+        e_ = ex.deref(e)
+        if e_.get("k") == "decl" and e_.get("n") == "memory_limit" and e_.get("init") is not None:
+            for c in ex.calls(e_["init"]):
+                if c.get("fn") == "hardware_memlimit_get":
+                    lims.append(c)
+    if not lims:
+        raise AnalysisBroken("xz coder.c: `memory_limit = hardware_memlimit_get(...)` not found")
+    okm = all(ex.show(c["args"][0]) == "opt_mode" for c in lims)
+    ck.ob("C09-TERMS", "xz:limit-of-current-mode", okm, common.where(g, lims[0]),
+          "xz: coder_set_compression_settings() compares the usage with hardware_memlimit_get(opt_mode)" if okm else
+          "xz: coder_set_compression_settings() takes the limit from hardware_memlimit_get(%s) instead of the current "
+          "operation mode: --format=raw decompression (whose only memory check is here) is compared with the "
+          "compression limit, so --memlimit-decompress is ignored" % ex.show(lims[0]["args"][0]),
+          key="TERMS:xz:limit-of-current-mode")
     # direct (single-threaded) mode is entered because the Block alone needs most of the limit: everything the threaded
     # mode holds is released first -- all cached output buffers (not the keep-one variant) and the worker threads
     from .mtcommon import _all_paths_call
